@@ -256,6 +256,34 @@ class Explorer:
     def assume(self, f):
         self.fixed.append(f)
 
+    def _fresh_linear(self, d):
+        C = alg.ctx()
+        if type(d) is not Value or d.dm != C.one or d.df:
+            return False
+        if self.fixed:
+            return False  # standing assumptions may mention anything: leave those cases to the solver
+        used = getattr(self, "_used", None)
+        if used is None or self._used_n > len(self.pc):
+            used, self._used_n = set(), 0
+        for dd, _r, _c in self.pc[self._used_n:]:
+            used |= _plain_syms(dd)
+        self._used, self._used_n = used, len(self.pc)
+        if any(C.kinds[t] not in ("real", "pos", "opq") or t in C.boysinfo or any(x == t for x, _ in C.logs) for t in used):
+            return False  # the path condition mentions composite atoms whose arguments are not visible here
+        occ = {}
+        for m in d.n:
+            for t, e in C.items(m):
+                if C.kinds[t] not in ("real", "pos", "opq") or t in C.boysinfo or any(x == t for x, _ in C.logs):
+                    return False
+                occ.setdefault(t, []).append((m, e))
+        for t, lst in occ.items():
+            if C.kinds[t] != "real" or t in used:
+                continue
+            # t only to the first power, and alone in its monomial (constant cofactor)
+            if all(e == alg.QU and len(C.items(m)) == 1 for m, e in lst) and len(lst) == 1:
+                return True
+        return False
+
     def decide(self, a, b, rel):
         d = S.expand(a - b)
         if d.is_const():
@@ -264,6 +292,14 @@ class Explorer:
         if alg.v_equal(d, Value({})):
             return rel in ("==", "<=", ">=")
         cond = ("atom", d, rel)
+        if rel in ("==", "!=") and self._fresh_linear(d):
+            # d is linear in a real symbol that nothing decided or assumed so far mentions, with a constant cofactor:
+            # both d == 0 and d != 0 extend any model of the path condition, so this is a genuine fork (no solver call)
+            i = len(self.trace)
+            choice = self.prefix[i] if i < len(self.prefix) else True
+            self.trace.append(choice)
+            self.pc.append((d, rel, choice))
+            return choice
         base = self.fixed + pc_formulas(self.pc)
         self.stats["queries"] += 2
         r1, _, t1 = _solve(base + [cond])
